@@ -568,3 +568,18 @@ impl Num for &'static str {
 pub fn conv_m<A: Num, B: Num>(a: A) -> B {
     B::from_n(a.to_n() + 100)
 }
+
+// ------------------------------------------------------------------------------------------
+// C08: user types reachable from literals by Into
+
+#[derive(Clone, Copy, Debug, PartialEq, Default)]
+pub struct DI(pub i64);
+impl From<i32> for DI { fn from(x: i32) -> DI { DI(x as i64 + 1000) } }
+#[derive(Clone, Copy, Debug, PartialEq, Default)]
+pub struct DF(pub f64);
+impl From<f64> for DF { fn from(x: f64) -> DF { DF(x + 1000.0) } }
+#[derive(Clone, Copy, Debug, PartialEq, Default)]
+pub struct DB(pub u8);
+impl From<bool> for DB { fn from(x: bool) -> DB { DB(10 + x as u8) } }
+pub const K7: u8 = 7;
+pub fn mk_v(n: u8) -> V { V(n) }
